@@ -257,12 +257,21 @@ func (r *Report) writeEvidence(ps *propSummary, viol int) {
 	abstracted := map[string]int{}
 	var notes []string
 	var preconds []string
+	exploreOK := 0
+	var exploreOpen []string
 	crossTotal := map[string]int{}
 	crossOK := map[string]bool{}
 	var crossDisagree []string
 	seenFn := map[string]bool{}
 	for _, ob := range ps.obls {
 		if ob.Res.status == "not-attempted" {
+			if ob.Explore != "" {
+				if ob.Explore == "unsat" {
+					exploreOK++
+				} else {
+					exploreOpen = append(exploreOpen, ob.ID)
+				}
+			}
 			continue
 		}
 		byKind[ob.Kind]++
@@ -343,6 +352,7 @@ func (r *Report) writeEvidence(ps *propSummary, viol int) {
 		"known_findings_hit":       knownHit,
 		"notes":                    notes,
 		"generator_errors":         ps.genErrs,
+		"unclaimed_obligations":    map[string]any{"note": "thorough tier only: obligations of partial contracts outside their claimed kinds, attempted for information (4 s, never counted, never a violation); open ones usually need a precondition or a contract on a callee", "discharged": exploreOK, "open": exploreOpen},
 		"cross_check":              map[string]any{"note": "thorough tier only: every discharged obligation is put, as one goal, to the solvers that did not give the accepted answer (20 s)", "answers": crossTotal, "obligations_confirmed_by_a_second_solver": len(crossOK), "disagreements": crossDisagree},
 		"preconditions":            preconds,
 		"preconditions_note":       "each precondition is an obligation at every call site inside a function under a full contract (kind pre); at entry points, and at call sites in functions that are not under contract or whose partial contract does not claim kind pre, it is assumed",
